@@ -496,7 +496,7 @@ func (fr *Frame) enterLoop(head *ssa.BasicBlock, ord int, in *State) *State {
 	ex := fr.ex
 	var invs []*Clause
 	var dec *Clause
-	if fr.isTop && ex.fc != nil {
+	if (fr.isTop || fr.adoptsLoops) && ex.fc != nil {
 		invs = ex.fc.LoopInv[ord]
 		dec = ex.fc.LoopDec[ord]
 	}
@@ -536,7 +536,7 @@ func (fr *Frame) enterLoop(head *ssa.BasicBlock, ord int, in *State) *State {
 			}
 		}
 	}
-	hasDeclared := fr.isTop && ex.fc != nil && len(ex.fc.LoopMod[ord]) > 0
+	hasDeclared := (fr.isTop || fr.adoptsLoops) && ex.fc != nil && len(ex.fc.LoopMod[ord]) > 0
 	for srt := range ms.ptrSorts {
 		if hasDeclared {
 			break // the declared frame is checked at the back edges instead
@@ -549,7 +549,7 @@ func (fr *Frame) enterLoop(head *ssa.BasicBlock, ord int, in *State) *State {
 	}
 	apIn := ex.varOf(in, "allocptr", SInt)
 	var declared *loopFrame
-	if fr.isTop && ex.fc != nil && len(ex.fc.LoopMod[ord]) > 0 {
+	if (fr.isTop || fr.adoptsLoops) && ex.fc != nil && len(ex.fc.LoopMod[ord]) > 0 {
 		declared = &loopFrame{allowed: map[string][]Term{}, elemBases: map[string][]Term{}, whole: map[string]bool{}}
 		env := ex.specEnv(fr, in, ex.entry)
 		env.loopEntry = in
@@ -682,7 +682,7 @@ func (fr *Frame) enterLoop(head *ssa.BasicBlock, ord int, in *State) *State {
 			return t, true
 		}})
 	}
-	if fr.isTop && ex.fc != nil {
+	if (fr.isTop || fr.adoptsLoops) && ex.fc != nil {
 		for _, cl := range ex.fc.LoopAssume[ord] {
 			env := ex.specEnv(fr, st, ex.entry)
 			env.loopEntry = in
@@ -722,7 +722,7 @@ func (fr *Frame) closeLoop(head *ssa.BasicBlock, ord int, st *State, from *ssa.B
 	}
 	var invs []*Clause
 	var dec *Clause
-	if fr.isTop && ex.fc != nil {
+	if (fr.isTop || fr.adoptsLoops) && ex.fc != nil {
 		invs = ex.fc.LoopInv[ord]
 		dec = ex.fc.LoopDec[ord]
 	}
@@ -793,7 +793,7 @@ func fnHasDefers(fn *ssa.Function) bool {
 // of that edge and then assumed in universal form.
 func (fr *Frame) exitLoop(head *ssa.BasicBlock, ord int, st *State, from *ssa.BasicBlock) {
 	ex := fr.ex
-	if !fr.isTop || ex.fc == nil {
+	if !(fr.isTop || fr.adoptsLoops) || ex.fc == nil {
 		return
 	}
 	lc := fr.loopCtxs[head]
